@@ -6,7 +6,7 @@
 From Coq Require Import Reals Bool List.
 From Coquelicot Require Import Coquelicot.
 From RV Require Import Base.RB Gen.GenC10Triplet Gen.GenC10Hem Gen.GenC10Merton Gen.GenC10Vg Gen.GenC10Cgmy Gen.GenC10Bs Gen.GenC10Exp
-  Model.LevyExponent Proofs.C10_Triplet Proofs.C10_Exponent.
+  Gen.GenC09Hem Model.LevyExponent Proofs.C10_Triplet Proofs.C10_Exponent Proofs.C10_HemLK Proofs.C10_Cgmy.
 Import ListNotations.
 Open Scope R_scope.
 
@@ -25,7 +25,7 @@ Proof. exact conversions_reversible. Qed.
 Theorem C10_conversions_meaning : forall INF m1 fv r t,
   t_rep (set_representation INF m1 fv r t) = r /\
   t_a (set_representation INF m1 fv r t) = of_canonical INF m1 fv r (to_canonical INF m1 fv (t_rep t) (t_a t)).
-Proof. intros. split; [apply set_representation_rep | apply set_representation_a]. Qed.
+Proof. exact set_representation_meaning. Qed.
 
 (* --- martingale: characteristic function at -i (omega = -kappa(1)) *)
 Theorem C10_martingale_cf : forall log_spot r d a sigma pj t,
@@ -50,25 +50,63 @@ Theorem C10_cumulants_hem : forall a sigma lam p eta1 eta2, 0 < eta1 -> 0 < eta2
    /\ hem_cumulant1 a lam p eta1 eta2 t = t * hem_cumulant1 a lam p eta1 eta2 1) /\
   (is_derive_n (kappa a sigma (hem_pj lam p eta1 eta2)) 2 0 (hem_cumulant2 sigma lam p eta1 eta2 1)
    /\ hem_cumulant2 sigma lam p eta1 eta2 t = t * hem_cumulant2 sigma lam p eta1 eta2 1).
-Proof. intros. split; [apply hem_cumulant1_derive | apply hem_cumulant2_derive]; assumption. Qed.
+Proof. exact hem_cumulants. Qed.
 Theorem C10_cumulants_merton : forall a sigma lam mu_j sigma_j t,
   (is_derive (kappa a sigma (merton_pj lam mu_j sigma_j)) 0 (merton_cumulant1 a lam mu_j sigma_j 1)
    /\ merton_cumulant1 a lam mu_j sigma_j t = t * merton_cumulant1 a lam mu_j sigma_j 1) /\
   (is_derive_n (kappa a sigma (merton_pj lam mu_j sigma_j)) 2 0 (merton_cumulant2 sigma lam mu_j sigma_j 1)
    /\ merton_cumulant2 sigma lam mu_j sigma_j t = t * merton_cumulant2 sigma lam mu_j sigma_j 1).
-Proof. intros. split; [apply merton_cumulant1_derive | apply merton_cumulant2_derive]. Qed.
+Proof. exact merton_cumulants. Qed.
 Theorem C10_cumulants_vg : forall a sigma nu theta, nu <> 0 -> forall t,
   (is_derive (kappa a 0 (vg_pj sigma nu theta)) 0 (vg_cumulant1 a sigma nu theta 1)
    /\ vg_cumulant1 a sigma nu theta t = t * vg_cumulant1 a sigma nu theta 1) /\
   (is_derive_n (kappa a 0 (vg_pj sigma nu theta)) 2 0 (vg_cumulant2 sigma nu theta 1)
    /\ vg_cumulant2 sigma nu theta t = t * vg_cumulant2 sigma nu theta 1).
-Proof. intros. split; [apply vg_cumulant1_derive | apply vg_cumulant2_derive]; auto. Qed.
+Proof. exact vg_cumulants. Qed.
+
+(* CGMY (after the representation fixes): kappa'(0) = drift for y = 0, y = 1 and every other y; second cumulant for y not in
+   {0,1} given CG = c Gamma(-y) and the functional equation Gamma(2-y) = (1-y)(-y) Gamma(-y) (Gamma is an opaque function).
+   Partial: cumulant2 for y in {0,1}, cumulant4/6 are covered by the oracle only. *)
+Theorem C10_cumulants_cgmy_partial : forall a c g m y CG (Gamma : R -> R) t, 0 < g -> 0 < m ->
+  is_derive (kappa a 0 (cgmy_kappa_pj c g m 0 CG)) 0 a /\
+  is_derive (kappa a 0 (cgmy_kappa_pj c g m 1 CG)) 0 a /\
+  (y <> 0 -> y <> 1 ->
+     (is_derive (kappa a 0 (cgmy_kappa_pj c g m y CG)) 0 (cgmy_cumulant1 a y 1) /\ cgmy_cumulant1 a y t = t * cgmy_cumulant1 a y 1) /\
+     (CG = c * Gamma (- y) -> Gamma (2 - y) = (1 - y) * (- y) * Gamma (- y) ->
+        is_derive_n (kappa a 0 (cgmy_kappa_pj c g m y CG)) 2 0 (cgmy_cumulant2 Gamma c g m y 1) /\
+        cgmy_cumulant2 Gamma c g m y t = t * cgmy_cumulant2 Gamma c g m y 1)).
+Proof. exact cgmy_cumulants. Qed.
+
+(* --- the exponent is the Levy-Khintchine integral of the model's own density in the declared representation.
+   Proved for HEM (declared ZERO: integrand e^{s x} - 1) on the whole strip -eta2 < s < eta1 as the limit of finite integrals;
+   for Merton / VG / CGMY this clause is validated by the quadrature oracle only (see MODELLED). *)
+Theorem C10_hem_exponent : forall lam p eta1 eta2 s, 0 < eta1 -> 0 < eta2 -> - eta2 < s < eta1 ->
+  is_lim (fun a => RInt (fun x => lk_integrand ZERO true s x * hem_nu lam p eta1 eta2 x) a 0) m_infty (Ln lam p eta2 s) /\
+  is_lim (fun b => RInt (fun x => lk_integrand ZERO true s x * hem_nu lam p eta1 eta2 x) 0 b) p_infty (Lp lam p eta1 s) /\
+  hem_pj lam p eta1 eta2 s = Ln lam p eta2 s + Lp lam p eta1 s.
+Proof. exact hem_exponent_is_LK. Qed.
+
+(* --- martingale: drift of the Markov-chain approximation (model.drift() + a_tilde + mu_tilde - mu_h) with the exact jump law.
+   Hypotheses: the first-moment function is additive at 0 (C09_additive) and H_rep: the exponent at 1 equals the CENTER form
+   center_drift + sigma^2/2 + int (e^x - 1 - x) nu  (proved below for every model declared ZERO whose exponent is int (e^{sx}-1) nu). *)
+Theorem C10_martingale_ctmc : forall INF m1 fv a0 rep,
+  (fv = true -> m1 (- INF) (- 0) + m1 0 INF = m1 (- INF) (-1) + m1 (-1) 1 + m1 1 INF) ->
+  forall r d sigma (pj : R -> R) Jc mu_h,
+  kappa a0 sigma pj 1 = center_drift INF m1 fv a0 (rep_code rep) + sigma ^ 2 / 2 + Jc ->
+  ctmc_growth_exact
+    (ctmc_process_drift (exp_model_drift r d (omega_of a0 sigma pj)) (tilde_drift INF m1 fv a0 (rep_code rep))
+                        (ctmc_mu_tilde INF m1 fv) mu_h) mu_h sigma Jc = r - d.
+Proof. exact martingale_ctmc. Qed.
+Theorem C10_Hrep_zero_declared : forall INF m1 fv a0 sigma (pj : R -> R) J0 Iall,
+  pj 1 = J0 -> Iall = m1 (- INF) (-1) + m1 (-1) 1 + m1 1 INF ->
+  kappa a0 sigma pj 1 = center_drift INF m1 fv a0 (rep_code ZERO) + sigma ^ 2 / 2 + (J0 - Iall).
+Proof. exact Hrep_zero_declared. Qed.
 
 (* non-vacuity: a concrete chain of conversions *)
 Example C10_nonvacuous : forall INF m1,
   t_a (set_representation INF m1 true CENTER (set_representation INF m1 true ONEONE (mkTriplet 5 ZERO)))
   = 5 + m1 (-1) 1 + (m1 (- INF) (-1) + m1 1 INF).
-Proof. intros. rewrite set_representation_a, set_representation_canonical. unfold canonical_of, to_canonical, of_canonical, I11, Tails. simpl. ring. Qed.
+Proof. exact conversions_example. Qed.
 
 Print Assumptions C10_conversions_path_independent.
 Print Assumptions C10_conversions_any_sequence.
@@ -82,3 +120,7 @@ Print Assumptions C10_forward_direct.
 Print Assumptions C10_cumulants_hem.
 Print Assumptions C10_cumulants_merton.
 Print Assumptions C10_cumulants_vg.
+Print Assumptions C10_cumulants_cgmy_partial.
+Print Assumptions C10_hem_exponent.
+Print Assumptions C10_martingale_ctmc.
+Print Assumptions C10_Hrep_zero_declared.
